@@ -127,10 +127,16 @@ DYNAMIC_CODE_EXT = {"importlib.import_module", "importlib.__import__"}
 MUTATORS = {"append", "extend", "insert", "pop", "remove", "clear", "update", "add", "discard", "setdefault",
             "popitem", "sort", "reverse", "appendleft", "popleft", "__setitem__", "__delitem__"}
 ORDER_FREE_CONSUMERS = {"sorted", "sum", "min", "max", "any", "all", "len", "set", "frozenset", "bool"}
+ITERTOOLS_CONSUMERS = {"combinations", "combinations_with_replacement", "permutations", "islice", "product", "accumulate",
+                       "cycle", "zip_longest", "starmap", "takewhile", "dropwhile", "groupby", "pairwise", "tee",
+                       "compress", "batched"}
+# consumers that look at a PREFIX / a bounded part of what they are given: the hash order decides WHICH elements count
+TRUNCATORS = {"islice", "next", "takewhile", "zip", "zip_longest", "batched", "head", "first"}
 ORDERED_CONSUMER_FUNCS = {"list", "tuple", "enumerate", "iter", "next", "zip", "map", "filter", "reversed", "dict",
-                          "OrderedDict", "deque"}
+                          "OrderedDict", "deque"} | ITERTOOLS_CONSUMERS
 ORDERED_CONSUMER_ATTRS = {"join", "extend", "choice", "shuffle", "permutation", "array", "asarray", "fromkeys",
-                          "DataFrame", "Series", "concatenate", "stack", "fromiter", "from_iterable", "chain"}
+                          "DataFrame", "Series", "concatenate", "stack", "fromiter", "from_iterable", "chain"} \
+    | ITERTOOLS_CONSUMERS
 WITH_DUNDERS = {"__enter__", "__exit__", "__aenter__", "__aexit__"}
 PICKLE_HOOKS = {"__getstate__", "__setstate__", "__reduce__", "__reduce_ex__", "__deepcopy__", "__copy__",
                 "__getnewargs__", "__getnewargs_ex__"}
@@ -909,9 +915,13 @@ class BodyVisitor:
             if f.attr in MUTATORS:
                 self.mutation(f.value, sc, lits, n, "." + f.attr + "()")
             if f.attr == "pop" and not n.args and self.is_set_expr(f.value, sc):
-                A.eff(sc.node, "HashOrderIter", lits, "%s set.pop()" % self.where(sc, n))
+                A.eff(sc.node, "HashOrderIter", lits, "%s set.pop()" % self.where(sc, n), tag="set.pop()")
         else:
             self.visit(f, sc, lits)
+        fname = f.id if isinstance(f, ast.Name) else (f.attr if isinstance(f, ast.Attribute) else None)
+        if fname in TRUNCATORS and any(self.consumes_set(a, sc) for a in n.args):
+            A.eff(sc.node, "HashOrderIter", lits, "%s %s(...) takes a bounded part of an ordered view of a set" % (
+                self.where(sc, n), ast.unparse(f)[:40]), tag="order-truncating: %s" % ast.unparse(f)[:40])
         type_test = isinstance(f, ast.Name) and f.id in ("isinstance", "issubclass") and len(n.args) == 2
         for ai, a in enumerate(n.args):
             v = a.value if isinstance(a, ast.Starred) else a
@@ -927,10 +937,34 @@ class BodyVisitor:
                 continue
             if not harmless and self.is_set_expr(v, sc) and self.is_ordered_consumer(n):
                 A.eff(sc.node, "HashOrderIter", lits, "%s set passed to %s" % (
-                    self.where(sc, n), ast.unparse(f)[:40]))
+                    self.where(sc, n), ast.unparse(f)[:40]), tag="set passed to %s" % ast.unparse(f)[:40])
             self.visit(v, sc, lits)
         for k in n.keywords:
             self.visit(k.value, sc, lits)
+
+    def consumes_set(self, e, sc):
+        """e is a set, or an expression that (transitively) hands a set to an ordered consumer: list(S),
+        itertools.combinations(S, 2), enumerate(sorted-not(S)) ..."""
+        if isinstance(e, ast.Starred):
+            e = e.value
+        if self.is_set_expr(e, sc):
+            return True
+        if isinstance(e, ast.Call):
+            fn = e.func.id if isinstance(e.func, ast.Name) else (e.func.attr if isinstance(e.func, ast.Attribute) else None)
+            if fn in ORDER_FREE_CONSUMERS and not (fn == "sorted" and any(k.arg == "key" for k in e.keywords)):
+                return False
+            return any(self.consumes_set(a, sc) for a in e.args)
+        if isinstance(e, (ast.ListComp, ast.GeneratorExp)):
+            return any(self.consumes_set(g.iter, sc) for g in e.generators)
+        return False
+
+    def v_Subscript(self, n, sc, lits):
+        if isinstance(n.slice, ast.Slice) and isinstance(n.ctx, ast.Load) and self.consumes_set(n.value, sc) \
+                and not self.is_set_expr(n.value, sc):
+            self.A.eff(sc.node, "HashOrderIter", lits, "%s slice of an ordered view of a set" % self.where(sc, n),
+                       tag="order-truncating: slice")
+        for ch in ast.iter_child_nodes(n):
+            self.visit(ch, sc, lits)
 
     def is_ordered_consumer(self, call):
         f = call.func
@@ -968,6 +1002,17 @@ class BodyVisitor:
             return e.id in sc.set_vars
         if isinstance(e, ast.Attribute) and isinstance(e.value, ast.Name) and e.value.id == "self":
             return sc.cls is not None and e.attr in self.A.family_set_attrs(sc.cls)
+        # self.X[k] / self.X.get(k) where X is a container whose VALUES are sets (self.X[k] = set() somewhere)
+        c = e
+        if isinstance(c, ast.Call) and isinstance(c.func, ast.Attribute) and c.func.attr in ("get", "setdefault", "pop"):
+            c = c.func.value
+        elif isinstance(c, ast.Subscript):
+            c = c.value
+        else:
+            c = None
+        if isinstance(c, ast.Attribute) and isinstance(c.value, ast.Name) and c.value.id == "self" \
+                and sc.cls is not None and ("[]" + c.attr) in self.A.family_set_attrs(sc.cls):
+            return True
         if isinstance(e, ast.IfExp):
             return self.is_set_expr(e.body, sc) or self.is_set_expr(e.orelse, sc)
         return False
@@ -975,7 +1020,8 @@ class BodyVisitor:
     def comp(self, n, sc, lits, harmless=False):
         for g in n.generators:
             if not harmless and not isinstance(n, ast.SetComp) and self.is_set_expr(g.iter, sc):
-                self.A.eff(sc.node, "HashOrderIter", lits, "%s comprehension over a set" % self.where(sc, n))
+                self.A.eff(sc.node, "HashOrderIter", lits, "%s comprehension over a set" % self.where(sc, n),
+                           tag="comprehension over a set")
             self.visit(g.iter, sc, lits)
             self.visit(g.target, sc, lits)
             self.visit(g.ifs, sc, lits)
@@ -994,7 +1040,13 @@ class BodyVisitor:
 
     def v_For(self, n, sc, lits):
         if self.is_set_expr(n.iter, sc):
-            self.A.eff(sc.node, "HashOrderIter", lits, "%s for-loop over a set" % self.where(sc, n))
+            brk = own_break(n.body, with_return=True)
+            self.A.eff(sc.node, "HashOrderIter", lits, "%s for-loop over a set%s" % (
+                self.where(sc, n), " left early (break/return)" if brk else ""),
+                tag="for-loop over a set" + (" left early" if brk else ""))
+        elif self.consumes_set(n.iter, sc) and own_break(n.body):
+            self.A.eff(sc.node, "HashOrderIter", lits, "%s for-loop over an ordered view of a set, left by break"
+                       % self.where(sc, n), tag="order-truncating: for ... break")
         for ch in ast.iter_child_nodes(n):
             self.visit(ch, sc, lits)
 
@@ -1019,7 +1071,7 @@ class BodyVisitor:
 
     def v_Starred(self, n, sc, lits):
         if self.is_set_expr(n.value, sc):
-            self.A.eff(sc.node, "HashOrderIter", lits, "%s *set" % self.where(sc, n))
+            self.A.eff(sc.node, "HashOrderIter", lits, "%s *set" % self.where(sc, n), tag="*set")
         self.visit(n.value, sc, lits)
 
     # ---- writes ----
@@ -1132,6 +1184,28 @@ class BodyVisitor:
             self.A.eff(sc.node, "ClassAttrWrite", lits, "%s %s%s" % (self.where(sc, st), text, how))
         else:
             self.A.eff(sc.node, "ModuleGlobalWrite", lits, "%s %s%s" % (self.where(sc, st), text, how))
+
+
+def own_break(body, with_return=False):
+    """a break (or return) that leaves THIS loop: nested loops keep their own breaks"""
+    for st in body:
+        if isinstance(st, ast.Break) or (with_return and isinstance(st, ast.Return)):
+            return True
+        if isinstance(st, (ast.For, ast.AsyncFor, ast.While)):
+            if with_return and any(isinstance(x, ast.Return) for x in ast.walk(st)):
+                return True
+            if own_break(st.orelse, with_return):
+                return True
+            continue
+        if isinstance(st, (ast.FunctionDef, ast.AsyncFunctionDef, ast.ClassDef)):
+            continue
+        for fld in ("body", "orelse", "finalbody"):
+            if own_break(getattr(st, fld, []) or [], with_return):
+                return True
+        for h in getattr(st, "handlers", []) or []:
+            if own_break(h.body, with_return):
+                return True
+    return False
 
 
 def is_rs_none_test(t):
@@ -1248,6 +1322,21 @@ def analyze(repo):
                     if isinstance(t, ast.Attribute) and isinstance(t.value, ast.Name) and t.value.id == "self" \
                             and (probe.is_set_expr(n.value, dummy) or annotation_is_set(getattr(n, "annotation", None))):
                         A.set_attrs.setdefault(f.cls.qual, set()).add(t.attr)
+                    # self.X[k] = <set>  /  self.X = defaultdict(set): X holds sets
+                    if isinstance(t, ast.Subscript) and isinstance(t.value, ast.Attribute) \
+                            and isinstance(t.value.value, ast.Name) and t.value.value.id == "self" \
+                            and probe.is_set_expr(n.value, dummy):
+                        A.set_attrs.setdefault(f.cls.qual, set()).add("[]" + t.value.attr)
+                    if isinstance(t, ast.Attribute) and isinstance(t.value, ast.Name) and t.value.id == "self" \
+                            and isinstance(n.value, ast.Call) and isinstance(n.value.func, ast.Name) \
+                            and n.value.func.id == "defaultdict" and n.value.args \
+                            and isinstance(n.value.args[0], ast.Name) and n.value.args[0].id in ("set", "frozenset"):
+                        A.set_attrs.setdefault(f.cls.qual, set()).add("[]" + t.attr)
+            if isinstance(n, ast.Call) and isinstance(n.func, ast.Attribute) and n.func.attr == "setdefault" \
+                    and len(n.args) == 2 and probe.is_set_expr(n.args[1], dummy) \
+                    and isinstance(n.func.value, ast.Attribute) and isinstance(n.func.value.value, ast.Name) \
+                    and n.func.value.value.id == "self":
+                A.set_attrs.setdefault(f.cls.qual, set()).add("[]" + n.func.value.attr)
     V = BodyVisitor(A, fixed_keys)
     # --- function bodies
     for f in A.funcs.values():
